@@ -1,4 +1,5 @@
 import Momo.Model.Pool
+import Momo.Model.PoolWalk
 import Driver.Engine
 open Momo.Pool
 /-!
@@ -7,6 +8,8 @@ open Momo.Pool
 
   layout suite:  consts | cbs size A N | gba size | cfg S A N C | nb base | nbl base | blk addr | nb1 base
   dll suite:     pinit k | pset i prev next | pmove head b | punlink b | pappend head nb | pmerge thisHead otherHead
+                 | pwalk head (next-walk from the head, prev-walk from its predecessor) | pdall head (order in which
+                 DeallocateAll gives the buffers back)
   state suite:   new id S A N C | alloc id base1 base2 | alloc id fail | free id blk | dif id blk… | dall id
                  | merge id1 id2 | destroy id | dump id
 -/
@@ -124,6 +127,9 @@ def step (s : St) : List String → St × String
   | ["pmerge", th, oh] =>
       let s' := { s with heap := ptrMergeFrom s.nodes s.heap (int! th) (int! oh) }
       (s', dumpHeap s')
+  | ["pwalk", head] =>
+      (s, s!"f=[{joinInt (ptrWalk (s.nodes + 1) s.heap (int! head))}] b=[{joinInt (ptrWalkBack (s.nodes + 1) s.heap (s.heap (int! head)).prev)}]")
+  | ["pdall", head] => (s, s!"[{joinInt (ptrDeallocateAll (s.nodes + 1) s.heap (int! head)).1}]")
   -- ---------------- state suite
   | ["new", id, sS, sA, sN, sC] =>
       let P : Params := ⟨int! sS, int! sA, int! sN, nat! sC⟩
